@@ -249,7 +249,9 @@ func c53RunCase(d *c53Decoder, data []byte) (outcome string, fail *c53Fail) {
 	defer func() {
 		if r := recover(); r != nil {
 			if b, ok := r.(c53Budget); ok {
-				fail = &c53Fail{Kind: "steps", Site: c53Site(), Msg: fmt.Sprintf("more than %d read steps", b.steps-1)}
+				_ = b
+				// the budget depends on the input length: keep it out of the message, which is part of the key
+				fail = &c53Fail{Kind: "steps", Site: c53Site(), Msg: "more than 4096 + 64 x input-bytes read steps"}
 				outcome = "steps"
 				return
 			}
@@ -735,6 +737,87 @@ func c53MakeSeeds(c *fw.Ctx, dir string) {
 	if _, err := os.Stat(filepath.Join(dir, "pack-small.rev")); err != nil {
 		fw.Abort("git index-pack --rev-index wrote no .rev file")
 	}
+	gi.MustRun("index-pack", "-o", filepath.Join(dir, "pack-refdelta.idx"), filepath.Join(dir, "pack-refdelta.pack"))
+	// idx + pack bundles for the random-access reader (packfile.Packfile)
+	bundle := func(name, idxName, packName string) {
+		ib, err := os.ReadFile(filepath.Join(dir, idxName))
+		c.Must(err, "read idx")
+		pb, err := os.ReadFile(filepath.Join(dir, packName))
+		c.Must(err, "read pack")
+		put(name, c53Bundle(ib, pb))
+	}
+	bundle("bundle-small.bin", "pack-small.idx", "pack-small.pack")
+	bundle("bundle-delta.bin", "pack-delta.idx", "pack-delta.pack")
+	bundle("bundle-refdelta.bin", "pack-refdelta.idx", "pack-refdelta.pack")
+	// hand-made delta graphs that no well-behaved writer produces: a REF_DELTA
+	// whose base is itself, two REF_DELTAs that name each other, an OFS_DELTA
+	// with distance 0
+	{
+		delta := c53Zlib([]byte{1, 1, 1, 'a'})
+		type ent struct {
+			id   [20]byte
+			body []byte
+		}
+		mkPack := func(ents []ent) ([]byte, []uint32) {
+			var p bytes.Buffer
+			p.WriteString("PACK")
+			binary.Write(&p, binary.BigEndian, uint32(2))
+			binary.Write(&p, binary.BigEndian, uint32(len(ents)))
+			var offs []uint32
+			for _, e := range ents {
+				offs = append(offs, uint32(p.Len()))
+				p.Write(e.body)
+			}
+			s := sha1.Sum(p.Bytes())
+			p.Write(s[:])
+			return p.Bytes(), offs
+		}
+		mkIdx := func(ents []ent, offs []uint32, pack []byte) []byte {
+			var x bytes.Buffer
+			x.Write([]byte{0xff, 't', 'O', 'c', 0, 0, 0, 2})
+			for i := 0; i < 256; i++ {
+				n := uint32(0)
+				for _, e := range ents {
+					if int(e.id[0]) <= i {
+						n++
+					}
+				}
+				binary.Write(&x, binary.BigEndian, n)
+			}
+			for _, e := range ents { // ids are given in ascending order
+				x.Write(e.id[:])
+			}
+			for range ents {
+				binary.Write(&x, binary.BigEndian, uint32(0))
+			}
+			for _, o := range offs {
+				binary.Write(&x, binary.BigEndian, o)
+			}
+			x.Write(pack[len(pack)-20:])
+			s := sha1.Sum(x.Bytes())
+			x.Write(s[:])
+			return x.Bytes()
+		}
+		id := func(b byte) (h [20]byte) {
+			for i := range h {
+				h[i] = b
+			}
+			return
+		}
+		refDelta := func(base [20]byte) []byte {
+			return append(append([]byte{7<<4 | 4}, base[:]...), delta...)
+		}
+		a, b := id(0x11), id(0x22)
+		self := []ent{{a, refDelta(a)}}
+		pk, offs := mkPack(self)
+		put("bundle-selfref.bin", c53Bundle(mkIdx(self, offs, pk), pk))
+		cyc := []ent{{a, refDelta(b)}, {b, refDelta(a)}}
+		pk, offs = mkPack(cyc)
+		put("bundle-refcycle.bin", c53Bundle(mkIdx(cyc, offs, pk), pk))
+		ofs0 := []ent{{a, append([]byte{6<<4 | 4, 0}, delta...)}}
+		pk, offs = mkPack(ofs0)
+		put("bundle-ofszero.bin", c53Bundle(mkIdx(ofs0, offs, pk), pk))
+	}
 	// hand-made packs (as in the repository's fuzz seeds)
 	var e bytes.Buffer
 	e.WriteString("PACK")
@@ -784,7 +867,7 @@ func c53MakeSeeds(c *fw.Ctx, dir string) {
 	gw.MustRun("update-index", "--index-version", "2")
 	gw.MustRunIn([]byte("100644 "+ba+" 1\tc\n100644 "+bb+" 2\tc\n100644 "+bc+" 3\tc\n"), "update-index", "--index-info")
 	gw.MustRun("update-index", "--cacheinfo", "100644,"+bc+",c") // resolves the conflict: REUC extension
-	gw.MustRun("write-tree")                                      // TREE extension
+	gw.MustRun("write-tree")                                     // TREE extension
 	readIndex("index-ext")
 
 	// commit-graphs
